@@ -26,10 +26,15 @@ type Cfg struct {
 	Dim        int
 	Ints       bool // small-integer coordinates (ties, coincident points)
 	MaxLevel   int
+	Mmax       int // link budget of the upper levels when it differs from M (0: not given, the index derives it)
 }
 
 func (c Cfg) String() string {
-	return fmt.Sprintf("M%d ef%d efc%d h%v x%v k%v m%d d%d i%v L%d", c.M, c.Ef, c.EfC, c.Heuristic, c.Extend, c.Keep, c.Metric, c.Dim, c.Ints, c.MaxLevel)
+	s := fmt.Sprintf("M%d ef%d efc%d h%v x%v k%v m%d d%d i%v L%d", c.M, c.Ef, c.EfC, c.Heuristic, c.Extend, c.Keep, c.Metric, c.Dim, c.Ints, c.MaxLevel)
+	if c.Mmax > 0 {
+		s += fmt.Sprintf(" Mmax%d", c.Mmax)
+	}
+	return s
 }
 
 func (c Cfg) Space() space.Space {
@@ -47,6 +52,9 @@ func (c Cfg) Options() []index.HnswOption {
 	if c.Heuristic {
 		o = append(o, index.HnswSearchAlgorithm(index.HnswSearchHeuristic),
 			index.HnswHeuristicExtendCandidates(c.Extend), index.HnswHeuristicKeepPruned(c.Keep))
+	}
+	if c.Mmax > 0 {
+		o = append(o, index.HnswMmax(c.Mmax))
 	}
 	return o
 }
